@@ -1712,6 +1712,12 @@ static void inject_event(struct context_data *ctx)
  * Sequencing
  */
 
+#ifdef LIBXMP_VERIF
+/* Verification hook H7: told when next_order (0) / next_row (1) are entered
+ * (phase 0) and left (phase 1), to compare the sequencer step with its model. */
+void (*libxmp_verif_seqstep)(struct context_data *ctx, int which, int phase) = NULL;
+#endif
+
 static void next_order(struct context_data *ctx)
 {
 	struct player_data *p = &ctx->p;
@@ -1721,6 +1727,11 @@ static void next_order(struct context_data *ctx)
 	int reset_gvol = 0;
 	int mark;
 	int i;
+
+#ifdef LIBXMP_VERIF
+	if (libxmp_verif_seqstep)
+		libxmp_verif_seqstep(ctx, 0, 0);
+#endif
 
 	do {
 		p->ord++;
@@ -1785,12 +1796,22 @@ static void next_order(struct context_data *ctx)
 		}
 	}
 #endif
+
+#ifdef LIBXMP_VERIF
+	if (libxmp_verif_seqstep)
+		libxmp_verif_seqstep(ctx, 0, 1);
+#endif
 }
 
 static void next_row(struct context_data *ctx)
 {
 	struct player_data *p = &ctx->p;
 	struct flow_control *f = &p->flow;
+
+#ifdef LIBXMP_VERIF
+	if (libxmp_verif_seqstep)
+		libxmp_verif_seqstep(ctx, 1, 0);
+#endif
 
 	p->frame = 0;
 	f->delay = 0;
@@ -1823,6 +1844,11 @@ static void next_row(struct context_data *ctx)
 			next_order(ctx);
 		}
 	}
+
+#ifdef LIBXMP_VERIF
+	if (libxmp_verif_seqstep)
+		libxmp_verif_seqstep(ctx, 1, 1);
+#endif
 }
 
 #ifndef LIBXMP_CORE_DISABLE_IT
